@@ -6,7 +6,7 @@ CONSTANTS
   HopSafe = TRUE
   CLNormalised = TRUE
   BigBodies = FALSE
-  Families = {"sig", "hop"}
+  Families = {"sig", "hop", "inj"}
 INVARIANTS RulesHoldG
 ACTION_CONSTRAINT Emit
 CHECK_DEADLOCK FALSE
